@@ -112,6 +112,8 @@ def c02(ctx):
     mc_timescale(ctx)
     rep = timeline_legA(ctx)
     judge_replay(ctx, rep, lambda m: m.get("class") in ("hit", "pre", "end"), "keyframe hit / up to the delay / at or after the end")
+    rep2 = objects_legA(ctx)      # the same clauses for merged timelines (components still in their delay, ended components)
+    judge_replay(ctx, rep2, lambda m: m.get("class") in ("value", "prior-contents"), "merged timeline: value before the delay / after the end")
     ctx.assumptions += ["keyframe hits, start and terminal values: integers exactly, floats within 4 ulp of the predicted constant"]
     return "model_checking", RULE_TL
 
@@ -138,6 +140,8 @@ def c10(ctx):
     run_apalache(ctx, "TimeScaleInt", "FirstForward")
     rep = timeline_legA(ctx)
     judge_replay(ctx, rep, lambda m: m.get("ov") is True, "timeline with a substituted start value")
+    rep2 = objects_legA(ctx)      # sequences of start_with calls on one object (the latest replaces), clones, merged
+    judge_replay(ctx, rep2, lambda m: m.get("class") == "value", "object history with start_with calls")
     return "model_checking", RULE_TL
 
 
@@ -184,7 +188,7 @@ def c03(ctx):
 # =========================================================================================
 #  state animator: C04 C05 C06 C07
 # =========================================================================================
-NK = 5   # size of the animator configuration pool in MC_Animator.tla
+NK = 6   # size of the animator configuration pool in MC_Animator.tla
 
 
 def mc_animator(ctx):
@@ -278,7 +282,12 @@ def c05(ctx):
 
 @check("C06")
 def c06(ctx):
-    return animator_check(ctx, ("framerate",), "same history with time delivered in a different partition gives different results")
+    r = animator_check(ctx, ("framerate",), "same history with time delivered in a different partition gives different results")
+    # advance(a); advance(b) == advance(a+b) also when b is astronomically large
+    ex = run_harness(["drive-extreme", ctx.seed, 50])
+    for i in ex["animator_issues"]:
+        ctx.violation("a huge frame delivered after some progress does not behave like the same total time", i)
+    return r
 
 
 @check("C07")
@@ -289,7 +298,7 @@ def c07(ctx):
     rep = animator_legA(ctx)
     judge_replay(ctx, rep, lambda m: m.get("class") == "ended" or (m.get("class") == "vals" and m.get("exp_ended") is True),
                  "is_ended differs from the specification, or values do not rest at the terminal values while ended")
-    animator_legB(ctx, want_values=False)
+    animator_legB(ctx, want_values=True)
     return "model_checking", RULE_AN
 
 
@@ -367,7 +376,7 @@ def c19(ctx):
 # =========================================================================================
 #  timelines as objects: C09 (purity) and C12 (merged), and C20 (no panic / debug = release)
 # =========================================================================================
-NKO = 10
+NKO = 12
 
 
 def objects_mc(ctx):
